@@ -64,7 +64,7 @@ func raceReports(glob string) (reports []string, total int) {
 func runMain() {
 	hdir := flag.String("harnessdir", "/verif/harness", "directory of the harness module")
 	o := ParseOpts()
-	acc, err := astacc.Collect("/repo")
+	acc, err := astacc.Collect(astacc.RepoDir())
 	if err != nil {
 		fmt.Fprintln(os.Stderr, "cannot parse /repo:", err)
 		os.Exit(3)
